@@ -283,6 +283,8 @@ def run(ctx):
         return None
     guarded(r_mode, "OffsetMode::from", model.fns["offsetmode.from"], o5)
 
+    both_rule(ctx, prog)
+
     # ---------------- LEN: the length an offset reports
     r_len = ctx.rule("C04.LEN", "Offset::len answers end - begin for a well-ordered offset whose cursors have the same alignment, None for every other offset (mixed alignment, inverted, the most negative cursor), and never panics")
     lens = [f for f in syn.fns if f.name == "len" and (f.self_ty or "") == "Offset" and f.file == "src/selector.rs" and f.body is not None]
@@ -350,3 +352,39 @@ def run(ctx):
         if not ctors:
             ctx.report(r_store, "selector:insert#%d" % nins, "AnnotationStore::selector stores a TextSelection that does not come from a validating constructor (provenance: %s)" % sorted(prov)[:6], sel.file, t.get("line"))
     ctx.floor(r_store, nins, 2, "TextSelection insertions in selector()")
+
+
+# ---------------------------------------------------------------------- BOTH
+def both_rule(ctx, prog, rid="C04.BOTH"):
+    """every function that turns an `offset` into positions resolves *both* of its cursors with beginaligned_cursor,
+    the one place that refuses a cursor outside the text.  In the MIR of each such function the resolution of
+    `offset.begin` and that of `offset.end` must each dominate every block that builds the Ok answer: a shortcut that
+    derives the end from the begin and a length never looks at the end cursor, so an end beyond the text is accepted."""
+    r = ctx.rule(rid, "a function that resolves a cursor of its offset argument resolves both cursors with beginaligned_cursor on every path to an Ok answer")
+    n = 0
+    for bid, b in sorted(prog.bodies.items()):
+        if b.d.get("derived"):
+            continue
+        cs = [(bi, b.key_of_operand(t["args"][1]) if len(t.get("args", [])) > 1 else "") for bi, t in b.calls()
+              if (mirq.callee_of(t)[0] or "").endswith("::beginaligned_cursor") and not b.blocks[bi].get("cleanup")]
+        cs = [(bi, k) for bi, k in cs if re.search(r"(^|[&*(. ])offset\.(begin|end)$", k)]
+        if not cs:
+            continue
+        n += 1
+        ctx.functions_analysed.add(bid)
+        oks = []
+        for bi, blk in enumerate(b.blocks):
+            if blk.get("cleanup"):
+                continue
+            for s_ in blk["s"]:
+                rv = s_.get("rv") or {}
+                if s_["p"]["l"] == 0 and not s_["p"]["p"] and rv.get("r") == "agg" and rv.get("variant") == "Ok":
+                    oks.append((bi, s_.get("line")))
+        r.hit(mirq.short_fn(bid), sample={"function": bid, "resolutions": [k for _, k in cs], "ok_blocks": len(oks)})
+        for which in ("begin", "end"):
+            mine = [bi for bi, k in cs if k.endswith("offset." + which)]
+            for ob, line in oks:
+                if not any(b.dominates(bi, ob) for bi in mine):
+                    ctx.report(r, "%s|%s" % (mirq.short_fn(bid), which), "%s can answer Ok without having resolved `offset.%s` with beginaligned_cursor (%s): that cursor is never checked against the text, so an offset whose %s lies outside it is accepted (and clamped or sliced wrongly) where textselection() and annotate() refuse it" % (bid, which, "no such call" if not mine else "the call does not dominate the answer", which), b.file, line)
+                    break
+    ctx.floor(r, n, 8, "functions that resolve the cursors of an offset")
